@@ -25,6 +25,9 @@ for f in sorted(glob.glob('/repo/**/contracts_verif.go', recursive=True)):
             for t in funcs:
                 if cur in funcs[t]:
                     funcs[t].remove(cur)
+IFACE_PREFIXES = ('server.Handler.', 'server.ReadFileResponseWriter.', 'proto.AccessTimeFileInfo.', 'proto.AccessChangeTimeFileInfo.', 'fs.cbcMode.')
+for t in funcs:
+    funcs[t] = [f for f in funcs[t] if not f.startswith(IFACE_PREFIXES)]
 pm = {}
 for p, n in notes.items():
     fl = list(dict.fromkeys(funcs.get(p, []) + n.get('extra_functions', [])))
